@@ -10,6 +10,61 @@ from pta.rules.common import concrete_kinds, short
 KB = "pytato.analysis.PytatoKeyBuilder"
 
 
+def _feeds_dtype(fd) -> bool:
+    """does the updater feed <key>.dtype (or something derived from it) into the hash?"""
+    if len(fd.args.args) < 3:
+        return False
+    kh, key = fd.args.args[1].arg, fd.args.args[2].arg
+    for call in ast.walk(fd):
+        if not isinstance(call, ast.Call):
+            continue
+        f = ast.unparse(call.func)
+        fed = None
+        if f == "self.rec" and len(call.args) == 2 and ast.unparse(call.args[0]) == kh:
+            fed = call.args[1]
+        elif f == f"{kh}.update" and call.args:
+            fed = call.args[0]
+        if fed is not None and any(
+                isinstance(a, ast.Attribute) and a.attr == "dtype"
+                and isinstance(a.value, ast.Name) and a.value.id == key
+                for a in ast.walk(fed)):
+            return True
+    return False
+
+
+def _numpy_scalar_updater_feeds_dtype(m):
+    """where the dtype of a numpy scalar is fed into the key, or None"""
+    import sysconfig
+    from pathlib import Path
+    ci = m.cls(KB)
+    fd = ci.methods.get("update_for_numpy_scalar")
+    if fd is not None:
+        if _feeds_dtype(fd):
+            return "pytato.analysis.PytatoKeyBuilder"
+        # an override that does not delegate hides whatever the bases do
+        if not any(isinstance(x, ast.Call) and ast.unparse(x.func)
+                   == "super().update_for_numpy_scalar" for x in ast.walk(fd)):
+            return None
+    lib = Path(sysconfig.get_paths()["purelib"])
+    for rel, cls in (("loopy/tools.py", "LoopyKeyBuilder"),
+                     ("pytools/persistent_dict.py", "KeyBuilder")):
+        p = lib / rel
+        if not p.exists():
+            raise AnalysisError(f"oracle source not found: {p}")
+        tree = ast.parse(p.read_text())
+        for n in ast.walk(tree):
+            if isinstance(n, ast.ClassDef) and n.name == cls:
+                for f in n.body:
+                    if isinstance(f, ast.FunctionDef) and f.name == "update_for_numpy_scalar":
+                        if _feeds_dtype(f):
+                            return f"{rel}:{cls}"
+                        if not any(isinstance(x, ast.Call) and ast.unparse(x.func)
+                                   == "super().update_for_numpy_scalar"
+                                   for x in ast.walk(f)):
+                            return None
+    return None
+
+
 def r_ndarray(c):
     m = c.model
     fd = m.func(KB + ".update_for_ndarray")
@@ -28,6 +83,17 @@ def r_ndarray(c):
                 "PytatoKeyBuilder.update_for_ndarray", f"feeds:{tok}", where,
                 f"the key of a wrapped ndarray does not include {why}: two different "
                 f"arrays get the same persistent key (fed: {fed})")
+    # numpy scalars (constants in scalar expressions): equal bytes do not mean
+    # equal values either (np.float32(2) / np.int32(1073741824)); the updater
+    # that applies to them -- the key builder's own, or the first one up its
+    # MRO in the installed loopy / pytools sources -- must feed the dtype
+    fed_by = _numpy_scalar_updater_feeds_dtype(m)
+    c.check(fed_by is not None, "R18-NDARRAY", "PytatoKeyBuilder.update_for_numpy_scalar",
+            "feeds:dtype", where,
+            "the key of a numpy scalar is its bytes only (neither PytatoKeyBuilder nor "
+            "the loopy/pytools key builders it inherits from feed the dtype): "
+            "x + np.float32(2) and x + np.int32(1073741824) get the same persistent key",
+            ok_detail=f"dtype fed by {fed_by}")
     # device arrays are keyed through their host copy, i.e. through the ndarray rule
     for meth in ("update_for_TaggableCLArray", "update_for_Array"):
         f2 = m.func(f"{KB}.{meth}")
